@@ -173,6 +173,8 @@ def _check_snap(run, world, mod, rfn):
         with X as `raw`."""
         nf = normalise(fn, world, LOC, mvcls, aliases="params")
         from ..inline import InlineBlock
+        from ..unroll import fold_or_idiom
+        fold_or_idiom(nf)     # `t = A; if t: return t; return B` is `A or B`
         out = []
         tmp = {}       # __ret_N -> [value expressions]
 
